@@ -182,6 +182,18 @@ def scratchWriter : List (String × String) :=
    ("ion_list", "writes:pitzer_make_lists"),
    ("param_list", "writes:pitzer_make_lists")]
 
+/-- the shape of the load path that Model/Reset.lean models (`load`, `loadDb`, test run), as facts the translator must find in
+    IPhreeqc.cpp with the helpers of the class inlined: LoadDatabase(String) holds three file switches, calls load_db(_str) and
+    test_db; load_db(_str) calls UnLoadDatabase and the engine's read_database and sets DatabaseLoaded; test_db runs an input -/
+def expectedLoadShape : List (String × String) :=
+  [("LoadDatabase", "calls:load_db"), ("LoadDatabase", "calls:test_db"),
+   ("LoadDatabase", "resets:ErrorFileOn"), ("LoadDatabase", "resets:OutputFileOn"), ("LoadDatabase", "resets:LogFileOn"),
+   ("LoadDatabaseString", "calls:load_db_str"), ("LoadDatabaseString", "calls:test_db"),
+   ("LoadDatabaseString", "resets:ErrorFileOn"), ("LoadDatabaseString", "resets:OutputFileOn"), ("LoadDatabaseString", "resets:LogFileOn"),
+   ("load_db", "calls:UnLoadDatabase"), ("load_db", "calls:E:read_database"), ("load_db", "resets:DatabaseLoaded"),
+   ("load_db_str", "calls:UnLoadDatabase"), ("load_db_str", "calls:E:read_database"), ("load_db_str", "resets:DatabaseLoaded"),
+   ("test_db", "calls:RunString")]
+
 /-- what a load does with each data member of class IPhreeqc and (prefix io.) of its base PHRQ_io:
     id | switch | name : survivors named by the property;  unload : reset by UnLoadDatabase;
     percall : overwritten by every Run* call (check_database, update_errors, close_output_files) and therefore by test_db;
